@@ -59,11 +59,11 @@ Proof.
 Qed.
 
 (** * instantiation by [_build_subst] is plain replacement on simple patterns *)
-Lemma lookup_build : forall ps k i,
-  lookup i (map fst (build_subst_from k ps)) (map snd (build_subst_from k ps)) =
+Lemma dlookup_build : forall ps k i,
+  PM.dlookup i (build_subst_from k ps) =
   if i <? k then None else
     match nth_error ps (N.to_nat (i - k)) with
-    | Some p => if pat_eqb p (phi i) then None else Some (Some p)
+    | Some p => if pat_eqb p (phi i) then None else Some p
     | None => None
     end.
 Proof.
@@ -74,36 +74,36 @@ Proof.
     + assert (Hlt' : i <? k + 1 = true) by (apply N.ltb_lt; lia).
       destruct (pat_eqb p (phi k)).
       * rewrite IH, Hlt'. reflexivity.
-      * cbn [map fst snd lookup]. destruct (N.eqb_spec k i) as [->|_]; [lia|].
-        cbn [tl]. rewrite IH, Hlt'. reflexivity.
-    + destruct (N.eqb_spec k i) as [->|Hne].
+      * cbn [PM.dlookup]. destruct (N.eqb_spec i k) as [->|_]; [lia|].
+        rewrite IH, Hlt'. reflexivity.
+    + destruct (N.eqb_spec i k) as [->|Hne].
       * rewrite N.sub_diag. cbn [N.to_nat nth_error].
-        destruct (pat_eqb p (phi i)) eqn:E.
-        -- rewrite IH. assert (Hlt' : i <? i + 1 = true) by (apply N.ltb_lt; lia). now rewrite Hlt'.
-        -- cbn [map fst snd lookup]. rewrite N.eqb_refl. reflexivity.
+        destruct (pat_eqb p (phi k)) eqn:E.
+        -- rewrite IH. assert (Hlt' : k <? k + 1 = true) by (apply N.ltb_lt; lia). now rewrite Hlt'.
+        -- cbn [PM.dlookup]. rewrite N.eqb_refl. reflexivity.
       * assert (Hge' : i <? k + 1 = false) by (apply N.ltb_ge; lia).
         assert (Hs : N.to_nat (i - k) = S (N.to_nat (i - (k + 1)))) by lia.
         rewrite Hs. cbn [nth_error].
         destruct (pat_eqb p (phi k)).
         -- rewrite IH, Hge'. reflexivity.
-        -- cbn [map fst snd lookup]. destruct (N.eqb_spec k i) as [->|_]; [lia|].
-           cbn [tl]. rewrite IH, Hge'. reflexivity.
+        -- cbn [PM.dlookup]. destruct (N.eqb_spec i k) as [->|_]; [lia|].
+           rewrite IH, Hge'. reflexivity.
 Qed.
 
-Lemma inst_build_subst : forall ps ax,
+Lemma py_inst'_build_subst : forall ps ax,
   simple (N.of_nat (length ps)) ax = true ->
-  inst guards_sound ax (map fst (build_subst ps)) (map snd (build_subst ps)) = Some (msubst ps ax).
+  PM.py_inst' (build_subst ps) ax = msubst ps ax.
 Proof.
   intros ps. unfold build_subst.
   induction ax as [n|n|n|l IHl r IHr|l IHl r IHr|x p IH|x p IH|i a1 a2 a3 a4 a5|p IHp x q IHq|p IHp x q IHq];
-    intros H; cbn [simple] in H; try discriminate; cbn [inst msubst]; try reflexivity.
+    intros H; cbn [simple] in H; try discriminate; cbn [PM.py_inst' msubst]; try reflexivity.
   - apply andb_true_iff in H as [H1 H2]. now rewrite IHl, IHr.
   - apply andb_true_iff in H as [H1 H2]. now rewrite IHl, IHr.
   - now rewrite IH.
   - now rewrite IH.
   - destruct a1, a2, a3, a4, a5; cbn in H; try discriminate.
     apply N.ltb_lt in H.
-    rewrite lookup_build. cbn [N.ltb]. replace (i <? 0) with false by (symmetry; apply N.ltb_ge; lia).
+    rewrite dlookup_build. replace (i <? 0) with false by (symmetry; apply N.ltb_ge; lia).
     rewrite N.sub_0_r.
     destruct (nth_error ps (N.to_nat i)) as [p|] eqn:E.
     + rewrite (nth_error_nth _ _ _ E).
@@ -113,16 +113,15 @@ Proof.
     + apply nth_error_None in E. lia.
 Qed.
 
-Lemma touches_nil : forall q, touches q [] = false.
+Lemma py_inst'_nil_simple : forall n ax, simple n ax = true -> PM.py_inst' [] ax = ax.
 Proof.
-  induction q as [n|n|n|l IHl r IHr|l IHl r IHr|x p IH|x p IH|i a1 a2 a3 a4 a5|p IHp x q IHq|p IHp x q IHq];
-    cbn; rewrite ?IHl, ?IHr, ?IH, ?IHp, ?IHq; reflexivity.
-Qed.
-
-Lemma inst_nil : forall p, inst guards_sound p [] [] = Some p.
-Proof.
-  induction p as [n|n|n|l IHl r IHr|l IHl r IHr|x p IH|x p IH|i a1 a2 a3 a4 a5|p IHp x q IHq|p IHp x q IHq];
-    cbn [inst lookup]; rewrite ?IHl, ?IHr, ?IH, ?touches_nil; reflexivity.
+  intros n.
+  induction ax as [m|m|m|l IHl r IHr|l IHl r IHr|x p IH|x p IH|i a1 a2 a3 a4 a5|p IHp x q IHq|p IHp x q IHq];
+    intros H; cbn [simple] in H; try discriminate; cbn [PM.py_inst' PM.dlookup]; try reflexivity.
+  - apply andb_true_iff in H as [H1 H2]. now rewrite IHl, IHr.
+  - apply andb_true_iff in H as [H1 H2]. now rewrite IHl, IHr.
+  - now rewrite IH.
+  - now rewrite IH.
 Qed.
 
 (** [self.dynamic_inst(X, _build_subst([..]))] *)
@@ -133,42 +132,52 @@ Lemma dynamic_inst_build_spec : forall X ps ax S,
   conc (dynamic_inst X (build_subst ps)) = Some S.
 Proof.
   intros [[t c]|] ps ax S HX Hs HS; cbn in HX; try discriminate. injection HX as ->.
-  pose proof (inst_build_subst ps ax Hs) as Hi. unfold dynamic_inst.
+  pose proof (py_inst'_build_subst ps ax Hs) as Hi. unfold dynamic_inst.
   destruct (build_subst ps) as [|kv d] eqn:E.
-  - cbn [map] in Hi. rewrite inst_nil in Hi. injection Hi as Hi. cbn. congruence.
-  - rewrite Hi. cbn. congruence.
+  - rewrite (py_inst'_nil_simple _ _ Hs) in Hi. cbn. congruence.
+  - cbn. congruence.
 Qed.
 
-(** * the stored conclusion is the replayed one *)
-Lemma prop1_wf : forall axs, owf axs prop1. Proof. reflexivity. Qed.
-Lemma prop2_wf : forall axs, owf axs prop2. Proof. reflexivity. Qed.
-Lemma prop3_wf : forall axs, owf axs prop3. Proof. reflexivity. Qed.
+Lemma gen_spec : forall h x l r, conc h = Some (Imp l r) -> conc (gen h x) = Some (Imp (Ex x l) r).
+Proof. intros [[t c]|] x l r H; cbn in *; try discriminate. injection H as ->. reflexivity. Qed.
 
-Lemma mp_wf : forall axs l r, owf axs l -> owf axs r -> owf axs (mp l r).
+(** * the stored conclusion is the replayed one ([g]: is Generalization allowed) *)
+Lemma prop1_wf : forall g axs, owf g axs prop1. Proof. reflexivity. Qed.
+Lemma prop2_wf : forall g axs, owf g axs prop2. Proof. reflexivity. Qed.
+Lemma prop3_wf : forall g axs, owf g axs prop3. Proof. reflexivity. Qed.
+
+Lemma mp_wf : forall g axs l r, owf g axs l -> owf g axs r -> owf g axs (mp l r).
 Proof.
-  intros axs [[tl cl]|] [[tr cr]|] Hl Hr; cbn in *; try exact I.
+  intros g axs [[tl cl]|] [[tr cr]|] Hl Hr; cbn in *; try exact I.
   - destruct cl; try exact I. destruct (pat_eqb cl1 cr) eqn:E; [|exact I].
     cbn. now rewrite Hl, Hr, E.
   - destruct cl; exact I.
 Qed.
 
-Lemma dynamic_inst_wf : forall axs X d, owf axs X -> owf axs (dynamic_inst X d).
+Lemma dynamic_inst_wf : forall g axs X d, owf g axs X -> owf g axs (dynamic_inst X d).
 Proof.
-  intros axs [[t c]|] d H; cbn in *; [|exact I].
+  intros g axs [[t c]|] d H; cbn in *; [|exact I].
   destruct d as [|kv d]; [exact H|].
-  destruct (inst guards_sound c (map fst (kv :: d)) (map snd (kv :: d))) eqn:E; [|exact I].
   cbn [owf static_conc]. now rewrite H.
 Qed.
 
-Lemma load_ax_wf : forall axs axs' a,
-  (forall x, existsb (pat_eqb x) axs = true -> existsb (pat_eqb x) axs' = true) ->
-  owf axs' (load_ax axs a).
+(** Generalization replays when the variable is fresh in the consequent of the premise *)
+Lemma gen_wf : forall axs h x,
+  owf true axs h -> (forall l r, conc h = Some (Imp l r) -> e_fresh r x = true) -> owf true axs (gen h x).
 Proof.
-  intros axs axs' a Hincl. unfold load_ax. destruct (existsb (pat_eqb a) axs) eqn:E; [|exact I].
+  intros axs [[t c]|] x H F; cbn in *; [|exact I].
+  destruct c; try exact I. cbn. rewrite H. now rewrite (F _ _ eq_refl).
+Qed.
+
+Lemma load_ax_wf : forall g axs axs' a,
+  (forall x, existsb (pat_eqb x) axs = true -> existsb (pat_eqb x) axs' = true) ->
+  owf g axs' (load_ax axs a).
+Proof.
+  intros g axs axs' a Hincl. unfold load_ax. destruct (existsb (pat_eqb a) axs) eqn:E; [|exact I].
   cbn. now rewrite (Hincl _ E).
 Qed.
 
-Lemma load_ax_by_index_wf : forall axs i, owf axs (load_ax_by_index axs i).
+Lemma load_ax_by_index_wf : forall g axs i, owf g axs (load_ax_by_index axs i).
 Proof.
   intros. unfold load_ax_by_index. destruct (nth_error axs i); [|exact I].
   apply load_ax_wf. auto.
@@ -181,48 +190,63 @@ Proof. intros a x H. discriminate. Qed.
 Lemma ax_incl_app_l : forall a b c, ax_incl (a ++ b) c -> ax_incl a c.
 Proof. intros a b c H x Hx. apply H. rewrite existsb_app, Hx. reflexivity. Qed.
 
-Lemma load_ax_by_index_incl_wf : forall A axs i, ax_incl A axs -> owf axs (load_ax_by_index A i).
+Lemma load_ax_incl_wf : forall g A axs a, ax_incl A axs -> owf g axs (load_ax A a).
+Proof. intros. apply load_ax_wf. assumption. Qed.
+
+Lemma load_ax_by_index_incl_wf : forall g A axs i, ax_incl A axs -> owf g axs (load_ax_by_index A i).
 Proof.
-  intros A axs i H. unfold load_ax_by_index. destruct (nth_error A i); [|exact I].
+  intros g A axs i H. unfold load_ax_by_index. destruct (nth_error A i); [|exact I].
   apply load_ax_wf. exact H.
 Qed.
 
-Lemma bindc_wf : forall axs (A : Type) (x : option A) k,
-  (forall a, owf axs (k a)) -> owf axs (bindc x k).
-Proof. intros axs A [a|] k H; cbn; [apply H | exact I]. Qed.
+Lemma load_ax_spec : forall A a, existsb (pat_eqb a) A = true -> conc (load_ax A a) = Some a.
+Proof. intros A a H. unfold load_ax. now rewrite H. Qed.
 
-Lemma bindc_pair_wf : forall axs (A B : Type) (x : option (A * B)) k,
-  (forall a b, owf axs (k (a, b))) -> owf axs (bindc x k).
-Proof. intros axs A B [[a b]|] k H; cbn; [apply H | exact I]. Qed.
+Lemma bindc_wf : forall g axs (A : Type) (x : option A) k,
+  (forall a, owf g axs (k a)) -> owf g axs (bindc x k).
+Proof. intros g axs A [a|] k H; cbn; [apply H | exact I]. Qed.
 
-Lemma guard_wf : forall axs b t, owf axs t -> owf axs (guard b t).
-Proof. intros axs [|] t H; cbn; [exact H | exact I]. Qed.
+Lemma bindc_pair_wf : forall g axs (A B : Type) (x : option (A * B)) k,
+  (forall a b, owf g axs (k (a, b))) -> owf g axs (bindc x k).
+Proof. intros g axs A B [[a b]|] k H; cbn; [apply H | exact I]. Qed.
 
-Lemma none_wf : forall axs, owf axs None. Proof. intros; exact I. Qed.
+Lemma guard_wf : forall g axs b t, owf g axs t -> owf g axs (guard b t).
+Proof. intros g axs [|] t H; cbn; [exact H | exact I]. Qed.
+
+Lemma none_wf : forall g axs, owf g axs None. Proof. intros; exact I. Qed.
 
 (** spec + wf: the method returns a thunk, its stored conclusion is the schema, and replaying
-    its term by the documented rules gives that schema *)
+    its term by the documented rules WITHOUT Generalization gives that schema *)
 Definition delivers (axs : list pat) (x : thunk) (s : pat) : Prop :=
-  exists t, x = Some (t, s) /\ static_conc axs t = Some s /\ uses_only axs t = true.
+  exists t, x = Some (t, s) /\ static_conc false axs t = Some s /\ uses_only axs t = true.
 
-Lemma static_conc_uses_only : forall axs t c, static_conc axs t = Some c -> uses_only axs t = true.
+Lemma static_conc_uses_only : forall axs t c, static_conc false axs t = Some c -> uses_only axs t = true.
 Proof.
-  intros axs. induction t as [| | |l IHl r IHr|t IH d|a]; intros c H; cbn in *; try reflexivity.
-  - destruct (static_conc axs l) as [cl|]; [|discriminate].
-    destruct (static_conc axs r) as [cr|]; [|destruct cl; discriminate].
+  intros axs. induction t as [| | |l IHl r IHr|t IH d|a|t IH x]; intros c H; cbn in *; try reflexivity.
+  - destruct (static_conc false axs l) as [cl|]; [|discriminate].
+    destruct (static_conc false axs r) as [cr|]; [|destruct cl; discriminate].
     now rewrite (IHl _ eq_refl), (IHr _ eq_refl).
-  - destruct (static_conc axs t) as [ct|]; [|discriminate]. eauto.
+  - destruct (static_conc false axs t) as [ct|]; [|discriminate]. eauto.
   - destruct (existsb (pat_eqb a) axs); [reflexivity|discriminate].
+  - destruct (static_conc false axs t) as [[]|]; discriminate.
 Qed.
 
-Lemma conc_owf_delivers : forall axs x s, conc x = Some s -> owf axs x -> delivers axs x s.
+Lemma static_conc_mono : forall axs t c, static_conc false axs t = Some c -> static_conc true axs t = Some c.
+Proof.
+  intros axs. induction t as [| | |l IHl r IHr|t IH d|a|t IH x]; intros c H; cbn in *; auto.
+  - destruct (static_conc false axs l) as [cl|]; [|discriminate].
+    destruct (static_conc false axs r) as [cr|]; [|destruct cl; discriminate].
+    now rewrite (IHl _ eq_refl), (IHr _ eq_refl).
+  - destruct (static_conc false axs t) as [ct|]; [|discriminate]. now rewrite (IH _ eq_refl).
+  - destruct (static_conc false axs t) as [[]|]; discriminate.
+Qed.
+
+Lemma conc_owf_delivers : forall axs x s, conc x = Some s -> owf false axs x -> delivers axs x s.
 Proof.
   intros axs [[t c]|] s Hc Hw; cbn in *; try discriminate. injection Hc as ->.
   exists t. repeat split; auto. eapply static_conc_uses_only; eauto.
 Qed.
 
-(** * match_single is sound on simple patterns: instantiating the pattern with the returned map
-      gives the instance (used by the *_match* rules) *)
 Lemma assoc_app_new : forall d i v, assoc i d = None -> assoc i (d ++ [(i, v)]) = Some v.
 Proof.
   induction d as [|[k w] d IH]; intros i v H; cbn in *.
